@@ -60,6 +60,8 @@ pub enum ExtraKind {
     IncludeListFirstMissingIgnored,
     /// the included template declares no blocks itself but extends a layout that does
     IncludeThinChild,
+    /// the included template extends the very root the includer's own chain ends in
+    IncludeSameBase,
     /// the included template has an inheritance chain of its own that reuses block name `a`
     IncludeWithOwnChain,
     Import,
@@ -215,6 +217,7 @@ fn extra_stmts(kind: ExtraKind, k: usize, in_macro: bool) -> Vec<Stmt> {
             text("+"),
             Stmt::Include { name: s("inc3.txt"), ignore_missing: false },
         ],
+        ExtraKind::IncludeSameBase => vec![text("<"), Stmt::Include { name: s("incsame.txt"), ignore_missing: false }, text(">")],
         ExtraKind::Import => vec![
             Stmt::Import { name: s("mod.txt"), alias: h.clone() },
             Stmt::Emit(Expr::Call(Box::new(attr(v(&h), "m1")), vec![Arg::Pos(v("cv"))])),
@@ -245,7 +248,12 @@ fn extra_stmts(kind: ExtraKind, k: usize, in_macro: bool) -> Vec<Stmt> {
 
 /// wraps the extra's statements according to its place; returns (statements for the block/top
 /// position, statements for the template's top level)
-fn placed_extra(e: Extra, k: usize) -> (Vec<Stmt>, Vec<Stmt>) {
+fn placed_extra(mut e: Extra, k: usize) -> (Vec<Stmt>, Vec<Stmt>) {
+    // the root layout reads template-level variables and fails in its own ways: it is only
+    // included where both are specified (inside blocks, not from macros, not in discarded regions)
+    if e.kind == ExtraKind::IncludeSameBase && matches!(e.place, Place::Top | Place::Macro) {
+        e.kind = ExtraKind::Include;
+    }
     match e.place {
         Place::Top | Place::Block => (extra_stmts(e.kind, k, false), vec![]),
         Place::LoopInBlock => (
@@ -308,6 +316,16 @@ fn block_stmt(case: &ChainCase, k: usize, bi: usize, extra_here: &mut Option<Vec
 pub fn build(case: &ChainCase) -> BTreeMap<String, Vec<Stmt>> {
     let mut out = helper_templates();
     let n = case.levels.len();
+    // a template of its own that extends the root of this chain (rendered through an include it
+    // has a chain of its own; that the includer has loaded the same root is no cycle)
+    out.insert(
+        "incsame.txt".to_string(),
+        vec![
+            Stmt::Extends(s(&tname(n.saturating_sub(1)))),
+            Stmt::Block { name: "a".into(), scoped: false, required: false, body: vec![text("SAME")] },
+            Stmt::Block { name: "b".into(), scoped: false, required: false, body: vec![text("SAMEB")] },
+        ],
+    );
     for k in 0..n {
         let lvl = &case.levels[k];
         let is_root = k + 1 == n;
@@ -527,6 +545,7 @@ fn labels_for(case: &ChainCase, v: &mut Verdict) {
                     | ExtraKind::IncludeWithOwnChain
                     | ExtraKind::IncludeListFirstMissingIgnored
                     | ExtraKind::IncludeThinChild
+                    | ExtraKind::IncludeSameBase
             )
         })
     }) {
@@ -564,6 +583,7 @@ fn extra_strategy() -> BoxedStrategy<Option<Extra>> {
         2 => Just(ExtraKind::IncludeWithOwnChain),
         2 => Just(ExtraKind::IncludeListFirstMissingIgnored),
         2 => Just(ExtraKind::IncludeThinChild),
+        2 => Just(ExtraKind::IncludeSameBase),
         3 => Just(ExtraKind::Import),
         3 => Just(ExtraKind::FromImport),
         1 => Just(ExtraKind::FromImportUnknownName),
@@ -1005,10 +1025,86 @@ impl Part for ErrorShapes {
     }
 }
 
-crate::declare_parts!(Chains, Shapes, ErrorShapes);
+
+// ---------------------------------------------------------------------------
+// part 4: inheritance cycles spelled with relative names under a path join callback
+
+#[derive(Clone, Debug, Serialize, Deserialize, PartialEq, Eq, Hash)]
+pub struct JoinCase {
+    /// length of the cycle dir/c0 -> ./c1 -> ... -> ./c0
+    pub n: u8,
+    /// the rendered template reaches the cycle through `extends` (else it is part of it)
+    pub from_outside: bool,
+    pub lead_text: bool,
+}
+
+pub struct JoinedCycles;
+
+impl Part for JoinedCycles {
+    type Case = JoinCase;
+    const NAME: &'static str = "cycles_under_path_join_callback";
+
+    fn strategy(_tier: Tier) -> BoxedStrategy<JoinCase> {
+        (1u8..5, any::<bool>(), any::<bool>()).prop_map(|(n, from_outside, lead_text)| JoinCase { n, from_outside, lead_text }).boxed()
+    }
+
+    fn enumeration(_tier: Tier) -> Vec<JoinCase> {
+        let mut out = vec![];
+        for n in 1..=4u8 {
+            for from_outside in [false, true] {
+                for lead_text in [false, true] {
+                    out.push(JoinCase { n, from_outside, lead_text });
+                }
+            }
+        }
+        out
+    }
+
+    fn check(c: &JoinCase) -> Verdict {
+        let mut v = Verdict::pass(true);
+        let mut env = Environment::new();
+        env.set_fuel(Some(200_000));
+        // the algorithm from the documentation of set_path_join_callback
+        env.set_path_join_callback(|name, parent| {
+            let mut rv = parent.split('/').collect::<Vec<_>>();
+            rv.pop();
+            name.split('/').for_each(|segment| match segment {
+                "." => {}
+                ".." => {
+                    rv.pop();
+                }
+                _ => rv.push(segment),
+            });
+            rv.join("/").into()
+        });
+        let lead = if c.lead_text { "LEAD;" } else { "" };
+        for k in 0..c.n {
+            let next = (k + 1) % c.n;
+            env.add_template_owned(format!("dir/c{k}"), format!("{lead}{{% extends './c{next}' %}}{{% block a %}}c{k}{{% endblock %}}")).unwrap();
+        }
+        env.add_template_owned("main".to_string(), format!("{lead}{{% extends 'dir/c0' %}}")).unwrap();
+        let start = if c.from_outside { "main" } else { "dir/c0" };
+        match env.get_template(start).unwrap().render(()) {
+            Ok(out) => v.set_fail("error_shape_rendered_as_success", format!("an inheritance cycle of {} templates rendered {out:?}", c.n)),
+            Err(e) => {
+                let k = innermost_kind(&e);
+                if k != ErrorKind::InvalidOperation {
+                    v.set_fail("wrong_error_kind", format!("an inheritance cycle of {} relative names ends with {k:?} instead of a cycle error: {e:#}", c.n));
+                }
+            }
+        }
+        v
+    }
+
+    fn show(c: &JoinCase) -> serde_json::Value {
+        serde_json::json!({"cycle_length": c.n, "from_outside": c.from_outside, "lead_text": c.lead_text})
+    }
+}
+
+crate::declare_parts!(Chains, Shapes, ErrorShapes, JoinedCycles);
 
 pub fn run(ctx: &mut Ctx) {
-    ctx.rule = "inheritance chains of 1-5 templates described by a shape vector: per (template, block in {a, b, c nested in a, d nested in c}) one of absent / override / super() before / after / twice / self.b(); extends as first tag, after text, inside `if flag`, with a dynamic name or a conditional expression; top-level set and text outside blocks; per template optionally an include (literal, dynamic, list with missing first entry, ignore missing, of a template with its own chain reusing block name a) or import / from-import (aliases, unknown names) placed at top level, in a block, in a loop or with-block inside a block, or inside a macro. Oracle: the reference interpreter's multi-template semantics (most-derived definition, super() = next defining ancestor, fall-through, discarded outside text, include sees current variables, module exposes exactly top-level macros and variables). Part all_shape_vectors enumerates every shape vector over {a, c in a} x 5 choices for chains up to 4 (quick) / 5 (thorough) templates (thorough also with block b, up to 4 templates); a root with super() is left to error_shapes. Part error_shapes enumerates inheritance/include/import cycles, double extends, missing parent/include/import, super() without parent or outside a block, required block not overridden: the render must return an error of the documented kind. Non-trivial: >=3 templates with a block defined at non-adjacent levels, or an include/import inside a block, loop, with or macro. Distinct by shape vector.".into();
+    ctx.rule = "inheritance chains of 1-5 templates described by a shape vector: per (template, block in {a, b, c nested in a, d nested in c}) one of absent / override / super() before / after / twice / self.b(); extends as first tag, after text, inside `if flag`, with a dynamic name or a conditional expression; top-level set and text outside blocks; per template optionally an include (literal, dynamic, list with missing first entry, ignore missing, of a template with its own chain reusing block name a) or import / from-import (aliases, unknown names) placed at top level, in a block, in a loop or with-block inside a block, or inside a macro. Oracle: the reference interpreter's multi-template semantics (most-derived definition, super() = next defining ancestor, fall-through, discarded outside text, include sees current variables, module exposes exactly top-level macros and variables). Part all_shape_vectors enumerates every shape vector over {a, c in a} x 5 choices for chains up to 4 (quick) / 5 (thorough) templates (thorough also with block b, up to 4 templates); a root with super() is left to error_shapes. Part error_shapes enumerates inheritance/include/import cycles, double extends, missing parent/include/import, super() without parent or outside a block, required block not overridden: the render must return an error of the documented kind; part cycles_under_path_join_callback spells cycles of 1-4 templates with relative names under the documented path-join callback. Non-trivial: >=3 templates with a block defined at non-adjacent levels, or an include/import inside a block, loop, with or macro. Distinct by shape vector.".into();
     ctx.assumptions = vec![
         "refint.rs implements the documented composition semantics; names assigned by an included template are never read afterwards, super() into a required block and required blocks below an overriding definition are not generated (the documentation is silent)".into(),
         "macro bodies only read their parameters and render-context variables (what a macro sees of its defining template's later top-level assignments is not specified)".into(),
@@ -1016,6 +1112,7 @@ pub fn run(ctx: &mut Ctx) {
     preamble(ctx);
     let t = ctx.tier;
     ctx.run_enumerated::<ErrorShapes>(ErrorShapes::enumeration(t), false);
+    ctx.run_enumerated::<JoinedCycles>(JoinedCycles::enumeration(t), false);
     ctx.run_enumerated::<Shapes>(Shapes::enumeration(t), true);
     ctx.run_part::<Chains>(t.pick(40_000, 12_000_000));
 }
